@@ -161,7 +161,7 @@ def fold_accumulators(ps):
     while changed:
         changed = False
         for k, p in enumerate(out):
-            if p["kind"] != "store" or p["op"] != "=" or p["loops"] or p["guards"]:
+            if p["kind"] != "store" or p["op"] not in ("=", "+=", "-=") or p["loops"] or p["guards"]:
                 continue
             val = p["val"]
             if not (isinstance(val, tuple) and val and val[0] == "var"):
@@ -188,7 +188,13 @@ def fold_accumulators(ps):
                     r = dict(q)
                     r["kind"] = "store"
                     r["lv"] = p["lv"]
-                    r["op"] = "=" if q["op"] == "decl" else q["op"]
+                    if p["op"] == "=":
+                        r["op"] = "=" if q["op"] == "decl" else q["op"]
+                    else:
+                        # *dst += acc  (resp. -=): the initial value and every increment are added to (subtracted from) *dst
+                        sign = {"decl": 1, "+=": 1, "-=": -1}[q["op"]] * (1 if p["op"] == "+=" else -1)
+                        r["op"] = "+=" if sign > 0 else "-="
+                        r["onto_previous"] = True
                     r["folded_from"] = q.get("name")
                     r.setdefault("t", p.get("t", ""))
                     new.append(r)
